@@ -66,6 +66,7 @@ def parseMethod (srcs : Array Src) (K : Nat) (tok : String) : Option (Method Ev)
       (fun k e => inDecBand (srcs.getD k default).dec δ e.dec))
   | ["all"] => some (allMethod K)
   | ["psifunc"] => some (psiFuncMethod (fun e => psiFunc e.psi e.fval))
+  | ["psifuncswap"] => some (psiFuncMethod (fun e => psiFunc e.fval e.psi))
   | ["angerr", a, b, fl] =>
     let a := pF a
     let b := pF b
